@@ -932,6 +932,10 @@ pub async fn handle_connection(
 
                 ret_log_app_error!(body_pipe.send_with_maybe_close(body, true).await);
 
+                // see the comment on the other call to `drain` below
+                if request.body_mut().drain().await.is_err() {
+                    break;
+                }
                 continue;
             }
             LimitAction::Passed => {}
@@ -963,12 +967,20 @@ pub async fn handle_connection(
             {
                 error!("Got error when writing response: {err:?}");
             }
+            // On HTTP/1, the next request starts where the body of this one ends.
+            // If the handler didn't read all of it, we have to.
+            let reusable = request.body_mut().drain().await.is_ok();
             drop(request);
+            reusable
         };
 
         // When version is HTTP/1, we block the socket if we begin listening to it again.
         match version {
-            Version::HTTP_09 | Version::HTTP_10 | Version::HTTP_11 => future.await,
+            Version::HTTP_09 | Version::HTTP_10 | Version::HTTP_11 => {
+                if !future.await {
+                    break;
+                }
+            }
             _ => {
                 let _task = spawn(future).await;
             }
